@@ -249,7 +249,8 @@ class IrcMsg(object):
                     self.time = minisix.datetime__timestamp(date)
                 else:
                     self.time = time.time()
-            except (IndexError, ValueError):
+            except (IndexError, ValueError, TypeError):
+                # TypeError: valueless 'time' tag (strptime(None, ...))
                 raise MalformedIrcMsg(repr(originalString))
         else:
             if msg is not None:
